@@ -7,7 +7,7 @@ import logging
 from sympy import Add, Mul, Rational, S, Symbol, sqrt
 
 from adcgen.expr_container import Expr
-from adcgen.indices import get_symbols
+from adcgen.indices import get_symbols, Index
 from adcgen.sympy_objects import (AntiSymmetricTensor as AT,
                                   SymmetricTensor as ST, Amplitude,
                                   NonSymmetricTensor as NT, KroneckerDelta)
@@ -91,7 +91,8 @@ def make_obj(rng, idxs):
             choices += ["xy1"]
     c = rng.choice(choices)
     if c == "nt":
-        return NT(rng.choice(["A", "B", "C", "Z", "W"]), tuple(idxs))
+        return NT(rng.choice(["A", "B", "C", "Z", "W", "Zf", "xV"]),
+                  tuple(idxs))
     if c == "V":
         return AT("V", tuple(idxs[:2]), tuple(idxs[2:]), rng.choice([0, 1]))
     if c == "f":
@@ -148,6 +149,16 @@ def index_pool(rng, spin_mode):
         return dict(zip(names, get_symbols(names)))
     if spin_mode == "a":
         return dict(zip(names, get_symbols(names, "a" * len(names))))
+    if spin_mode == "clash":
+        # occupied i,j,k exist with both spins under the same name: the pool
+        # maps l,m,n to the beta partners of i,j,k
+        al = get_symbols(names, "a" * len(names))
+        d = dict(zip(names, al))
+        for src, dst in zip("ijk", "lmn"):
+            d[dst] = get_symbols(src, "b")[0]
+        for src, dst in zip("abc", "def"):
+            d[dst] = get_symbols(src, "b")[0]
+        return d
     spins = "".join(rng.choice("ab") for _ in names)
     return dict(zip(names, get_symbols(names, spins)))
 
@@ -235,6 +246,8 @@ def random_term(rng, pool, shape=None):
             idxs += [fresh() for _ in range(rng.randint(0, 1))]
             rng.shuffle(idxs)
             objs.append(NT(rng.choice(["A", "B", "C"]) , tuple(idxs)))
+    if rng.random() < 0.08 and objs:
+        objs.append(rng.choice(objs))       # a squared factor
     term = Mul(*objs)
     return term, explicit
 
@@ -255,7 +268,8 @@ def einstein_targets(term):
 def gen_case(rng, n):
     """-> dict(expr=sympy, targets=[Index...] (requested order), explicit,
     tstr, tspin, bks, anti, label)"""
-    spin_mode = rng.choice(["", "", "", "", "a", "mixed"])
+    spin_mode = rng.choice(["", "", "", "", "", "a", "mixed", "mixed",
+                            "clash"])
     pool = index_pool(rng, spin_mode)
     term, explicit = random_term(rng, pool)
     if term == 0:
@@ -264,10 +278,11 @@ def gen_case(rng, n):
     cnt = {}
     for f in Mul.make_args(term):
         base = f.args[0] if f.is_Pow else f
+        mult = int(f.args[1]) if f.is_Pow else 1
         ids = (base.idx if hasattr(base, "idx") else
                [a for a in base.args if isinstance(a, Index)])
         for i in ids:
-            cnt[i] = cnt.get(i, 0) + 1
+            cnt[i] = cnt.get(i, 0) + mult
     tg = [i for i, c in cnt.items() if c == 1]
     if explicit:
         # hyper case: additionally every index on exactly two objects may be
@@ -291,11 +306,16 @@ def gen_case(rng, n):
             p2, q2 = rng.choice(same2)
             s2 = rng.choice([1, -1])
             expr = expr + s2 * expr.xreplace({p2: q2, q2: p2})
-    elif rng.random() < 0.2:
-        # unrelated second term with the same targets
+    elif rng.random() < 0.25:
+        # unrelated further terms with the same targets
         other = NT("R", tuple(tg)) * rand_pref(rng) if tg else \
             rand_pref(rng) * S(3)
         expr = expr + other
+        if tg and rng.random() < 0.4:
+            q = pool[[c for c in OCC + VIRT if pool[c] not in
+                      expr.atoms(Index)][0]]
+            expr = expr + rand_pref(rng) * NT("W", tuple(tg) + (q,)) * \
+                NT("Z", (q,))
     if rng.random() < 0.06:
         expr = expr * Symbol(rng.choice(["x", "c0"])) ** rng.choice([1, 2])
     from sympy import expand
@@ -304,8 +324,6 @@ def gen_case(rng, n):
         return None
     # target string
     names = [i.name for i in tg]
-    if len(set(names)) < len(names):
-        return None
     comma = None
     bks = 0
     if tg and rng.random() < 0.6:
@@ -344,6 +362,8 @@ def corpus():
         AT("V", (a, b), (i, k)), [j, k], "jk")
     add("corpus:name-prefix-f", NT("fancy", (i, a)) * AT("f", (i,), (b,)),
         [a, b], "ab")
+    add("corpus:name-contains-V-f", NT("Zf", (i, a)) * NT("xV", (a, j)) *
+        AT("f", (j,), (k,)), [i, k], "ik")
     add("corpus:numbered", NT("A", (i1, i2)) * NT("B", (i2, j)), [i1, j],
         "i1j")
     add("corpus:adc2-like", Rational(1, 2) * AT("V", (i, j), (a, b)) *
@@ -527,16 +547,7 @@ def run(ctx):
         lg.logger.setLevel(logging.ERROR)
     rng = ctx.rng
     quick = ctx.tier == "quick"
-    n_gen = 110 if quick else 600
-    cases = corpus()
-    n = 0
-    tries = 0
-    while n < n_gen and tries < 20 * n_gen:
-        tries += 1
-        c = gen_case(rng, n)
-        if c is not None:
-            cases.append(c)
-            n += 1
+    cases = build_cases(rng, quick)
 
     ctx.note(f"sympy {__import__('sympy').__version__}: S.Half == 0.5 is "
              f"{U.half_eq_float()} (sqrt prefactor branch "
@@ -557,6 +568,24 @@ def run(ctx):
                 coq_cases.append(cc if cc is not None else '"NOINPUT"')
 
     vals, errs = ctx.coq_eval("tie", coq_cases, header=U.COQ_HEADER, shard=40)
+    # Obj.longname vs the Gallina model
+    ln_cases = {}
+    for case, be, opt, obs in records:
+        for descr, term, want in U.coq_longname_cases(obs):
+            ln_cases.setdefault(term, (descr, want))
+    ln_terms = list(ln_cases)
+    lvals, _ = ctx.coq_eval("longname", ln_terms, header=U.COQ_HEADER,
+                            shard=200)
+    for term, val in zip(ln_terms, lvals):
+        descr, want = ln_cases[term]
+        ctx.case(key=("longname", term), nontrivial=True, kind="longname")
+        if not ctx.obligation(f"longname model == Obj.longname() for {descr}",
+                              val == want, f"coq {val} / impl {want}"):
+            ctx.violation(f"C17:model-mismatch:longname:{descr}",
+                          "Gallina longname differs from Obj.longname()",
+                          {"object": descr, "model": val, "impl": want,
+                           "correspondence": "Models/Codegen.v longname"},
+                          False)
     # hypotheses of the theorems, evaluated in Coq on every observed scheme
     chk_cases, chk_owner = [], []
     for n, (case, be, opt, obs) in enumerate(records):
@@ -657,7 +686,14 @@ def run(ctx):
             # hypotheses with the independent execution)
             if not ctx.obligation("hypotheses of C17_codegen_semantics hold => "
                                   f"values agree {vname}", bad is None):
-                pass
+                ctx.violation(
+                    f"C17:hypotheses-hold-but-values-differ:{vname}",
+                    "all decidable hypotheses of the C17 theorems hold for "
+                    "the observed scheme but the independent execution "
+                    "disagrees with the expression (model, interpreter or "
+                    "scheme semantics inconsistent)",
+                    {"case": describe(case, be, opt, obs), "difference": bad},
+                    True)
         if not okv:
             key = classify(case, variant, obs, bad["kind"],
                            bad.get("error"))
@@ -673,7 +709,54 @@ def run(ctx):
     ctx.note(f"outcomes: {stats}")
 
 
+def build_cases(rng, quick):
+    n_gen = 150 if quick else 900
+    cases = corpus()
+    n = tries = 0
+    while n < n_gen and tries < 20 * n_gen:
+        tries += 1
+        c = gen_case(rng, n)
+        if c is not None:
+            cases.append(c)
+            n += 1
+    return cases
+
+
 def replay(ctx, rep):
+    """re-executes the generate_code call of a replay file: regenerates the
+    case list from the recorded seed / tier, finds the case by label, runs
+    the implementation and the independent execution again"""
     import json
-    print(json.dumps(rep, indent=1, default=str)[:4000])
+    import random
+    logging.getLogger("adcgen").setLevel(logging.ERROR)
+    r = rep.get("replay", {})
+    case_d = r.get("case", r)
+    label = case_d.get("label")
+    be = case_d.get("backend", "einsum")
+    opt = case_d.get("optimize_contraction_scheme", True)
+    rng = random.Random(rep.get("seed", ctx.seed))
+    cases = build_cases(rng, rep.get("tier", "quick") == "quick")
+    case = next((c for c in cases if c["label"] == label), None)
+    if case is None:
+        print(f"case {label!r} not found; recorded data:")
+        print(json.dumps(rep, indent=1, default=str)[:3000])
+        return 2
+    obs = run_variant(case, be, opt)
+    print("expression :", case["expr"])
+    print("call       :", {k: case_d.get(k) for k in (
+        "target_indices", "target_spin", "bra_ket_sym",
+        "antisymmetric_result_tensor", "backend",
+        "optimize_contraction_scheme")})
+    print("outcome    :", obs.outcome, repr(obs.exc) if obs.exc else "")
+    print(obs.text or "")
+    if obs.outcome == "crash":
+        print("REPRODUCED: exception other than NotImplementedError")
+        return 1
+    if obs.outcome == "ok" and names_distinct(case):
+        bad = execute(case, be, obs.text, random.Random(1), nmodels=2)
+        if bad is not None and bad.get("kind") != "ambiguous-names":
+            print("REPRODUCED:", json.dumps(bad, indent=1, default=str))
+            return 1
+    print("not reproduced (text comparison with the Gallina model is only "
+          "done by the full check)")
     return 0
